@@ -92,4 +92,9 @@ META = {
         "note": "Trusted: Lean kernel; model; stack switching and page rounding; the harness' stack measurements. The property's 'deep recursion keeps working' is exercised up to 5 nested growths per chain, several chains per thread.",
         "design_ref": "DESIGN.md §4 C23",
     },
+    "C24": {
+        "text": "Theorems: the message is 'stack overflow' iff the faulting stack pointer lies outside every recorded segment (C24_message, all segment lists and pointers); a fault ends that coroutine in an absorbing error state (C24_fault_is_error); resuming any coroutine, faulting or not, leaves every other coroutine untouched and their results independent of it (C24_contained, C24_others_unaffected). Tie: real faults of four kinds after k suspends, interleaved with healthy coroutines on one thread, every resume result compared; stack_ptr_in_bounds compared at the segment boundaries.",
+        "note": "Trusted: Lean kernel; model; trap redirection and sigaltstack. Partial: the faulting stack pointer is not observable from outside the handler, so the sp-to-message link is tied only through the pure bounds function.",
+        "design_ref": "DESIGN.md §4 C24",
+    },
 }
